@@ -362,7 +362,8 @@ def run_refusal(item, col, tier):
                       {"kind": "refusal", "model": model, "screen": idx, "what": "masked", "label": label})
     # (b) negative / NaN among the observed rows, each position
     for i in observed:
-        for bad in (-0.5, float("nan")):
+        # negative values of every magnitude, down to ones that underflow to -0.0 in float32 / are subnormal
+        for bad in (-0.5, float("nan"), -1e-46, -1e-60, -5e-324, -1e300):
             col.evaluations += 1
             r2 = apply_variant(rows, {i: bad})
             s2 = make_screen(r2, control=CTL)
@@ -377,8 +378,8 @@ def run_refusal(item, col, tier):
             col.violation(f"C04|accepts-bad-observation|{model}",
                           f"{model} model accepted observation {bad} at observed row {i} of screen {idx}",
                           {"kind": "refusal", "model": model, "screen": idx, "what": "bad", "row": i, "value": bad})
-    col.states += len(views) + 2 * len(observed)
-    col.transitions += len(views) + 2 * len(observed)
+    col.states += len(views) + 6 * len(observed)
+    col.transitions += len(views) + 6 * len(observed)
 
 
 def cli_thetas(model, rows, tmp, tag):
